@@ -290,6 +290,13 @@ func ApplyT(name, v string) (out string, ambiguous bool, ok bool) {
 		return strings.ReplaceAll(v, "\x00", ""), false, true
 	case "hexencode":
 		return hex.EncodeToString([]byte(v)), false, true
+	case "hexdecode":
+		// a transformation that reports an error leaves the value as it was
+		b, err := hex.DecodeString(v)
+		if err != nil {
+			return v, false, true
+		}
+		return string(b), false, true
 	case "base64encode":
 		return base64.StdEncoding.EncodeToString([]byte(v)), false, true
 	case "md5":
